@@ -456,6 +456,21 @@ Ref ==
     ELSE IF q.kind = "update" THEN LET r == UpdFold(1, 0, <<>>) IN [out |-> r.out, err |-> r.err, stopunit |-> 0]
     ELSE RefSelect
 
+\* The statements fix WHAT a bounded query returns and that it stops pulling once the bound is reached (C02), not whether the engine looks at
+\* the candidate after the N-th row before it stops.  The tree does (TopWriter refuses the (N+1)-th write), so an error raised by a record that
+\* lies between the N-th row and that candidate is reported; an engine that stops right after the N-th row never evaluates that record and
+\* returns the N rows.  Both satisfy C02 and C14 ("a failure while evaluating ... on some record"): RefAlt is the second acceptable outcome.
+RefAlt ==
+    IF IOFault \/ PreJoinParseError \/ (q.join # "none" /\ FirstBadB # 0) \/ PostJoinParseError \/ q.init = "raise" \/ q.kind # "select"
+       \/ ~Streaming(q) \/ q.top < 1 \/ Ref.err = NoErr
+    THEN [has |-> FALSE, out |-> <<>>]
+    ELSE LET outs  == SelOuts
+             fe0   == FirstErrIdx(outs)
+             reach == Reaching(EntriesOf(outs, IF fe0 = 0 THEN Len(outs) ELSE fe0 - 1))
+         IN IF fe0 # 0 /\ Len(reach) = q.top
+            THEN [has |-> TRUE, out |-> IF breakAt = 0 THEN RowsOf(reach) ELSE Take(breakAt - 1, RowsOf(reach))]
+            ELSE [has |-> FALSE, out |-> <<>>]
+
 \* with a fault plan the leaf accepts only the first breakAt-1 rows
 RefOut == IF breakAt = 0 THEN Ref.out ELSE Take(breakAt - 1, Ref.out)
 
@@ -776,7 +791,7 @@ CaseOf == [q |-> q, A |-> A, B |-> B, hasHdr |-> hasHdr, breakAt |-> breakAt,
                        outs |-> IF Ref.err = NoErr /\ TextOnly(RefOut) THEN Stringify(RefOut) ELSE <<>>,
                        textonly |-> (Ref.err = NoErr /\ TextOnly(RefOut)), nonewarn |-> (Ref.err = NoErr /\ HasNoneCell(RefOut)),
                        pulllimit |-> PullLimit, streaming |-> Streaming(q),
-                       raggedA |-> WarnRagged(A), raggedB |-> WarnRagged(B), fullscan |-> (pc = "done" /\ pulled = Len(A) + 1)]]
+                       alt |-> RefAlt, raggedA |-> WarnRagged(A), raggedB |-> WarnRagged(B), fullscan |-> (pc = "done" /\ pulled = Len(A) + 1)]]
 
 Emit == (Terminal /\ EmitCases) => PrintT(ToJson(CaseOf))
 =============================================================================
